@@ -58,15 +58,28 @@ fn family(
                 if close(r2, 2.5 * r, 1e-12) {
                     st.pass("homogeneous");
                 } else {
-                    st.violation(name, "homogeneous", size, || format!("conv(2.5*{})={} vs 2.5*{}", v, r2, r), case);
+                    st.violation(
+                        name,
+                        "homogeneous",
+                        size,
+                        || format!("conv(2.5*{})={} vs 2.5*{}", v, r2, r),
+                        case,
+                    );
                 }
                 let w = 7.25;
                 let rw = conv(i, j, w);
                 let rs = conv(i, j, v + w);
-                if close(rs, r + rw, 1e-9) || (rs - (r + rw)).abs() <= 1e-12 * (r.abs() + rw.abs()) {
+                if close(rs, r + rw, 1e-9) || (rs - (r + rw)).abs() <= 1e-12 * (r.abs() + rw.abs())
+                {
                     st.pass("additive");
                 } else {
-                    st.violation(name, "additive", size, || format!("conv({}+{})={} vs {}+{}", v, w, rs, r, rw), case);
+                    st.violation(
+                        name,
+                        "additive",
+                        size,
+                        || format!("conv({}+{})={} vs {}+{}", v, w, rs, r, rw),
+                        case,
+                    );
                 }
                 // sign / zero
                 if v == 0.0 {
@@ -81,14 +94,36 @@ fn family(
                 if close(back, v, 1e-3) {
                     st.pass("round_trip");
                 } else {
-                    st.violation(name, "round_trip", size, || format!("{} -> {} -> {}", v, r, back), case);
+                    st.violation(
+                        name,
+                        "round_trip",
+                        size,
+                        || format!("{} -> {} -> {}", v, r, back),
+                        case,
+                    );
                 }
                 // physical factor within 0.1 %
                 if let Some(f) = phys(i, j) {
                     if close(r, v * f, 1e-3) {
                         st.pass("physical");
                     } else {
-                        st.violation(name, "physical", size, || format!("{} {} -> {} {} gives {}, physical {}", v, unit_name(i), unit_name(j), "", r, v * f), case);
+                        st.violation(
+                            name,
+                            "physical",
+                            size,
+                            || {
+                                format!(
+                                    "{} {} -> {} {} gives {}, physical {}",
+                                    v,
+                                    unit_name(i),
+                                    unit_name(j),
+                                    "",
+                                    r,
+                                    v * f
+                                )
+                            },
+                            case,
+                        );
                     }
                 }
             }
@@ -109,19 +144,55 @@ pub fn run(tier: Tier) -> i32 {
     let e = ru::ENERGY_UNITS;
     let g = ru::GRADE_UNITS;
     let w = ru::WEIGHT_UNITS;
-    family(&mut st, "distance", 5, &|i, j, v| d[i].convert(&Distance::new(v), &d[j]).as_f64(),
-        &|i, j| Some(ru::distance_m(&d[i]) / ru::distance_m(&d[j])), &|i| d[i].to_string());
-    family(&mut st, "time", 4, &|i, j, v| t[i].convert(&Time::new(v), &t[j]).as_f64(),
-        &|i, j| Some(ru::time_s(&t[i]) / ru::time_s(&t[j])), &|i| t[i].to_string());
-    family(&mut st, "speed", 3, &|i, j, v| s[i].convert(&Speed::new(v), &s[j]).as_f64(),
-        &|i, j| Some(ru::speed_mps(&s[i]) / ru::speed_mps(&s[j])), &|i| s[i].to_string());
-    family(&mut st, "grade", 3, &|i, j, v| g[i].convert(&Grade::new(v), &g[j]).as_f64(),
-        &|i, j| Some(ru::grade_dec(&g[i]) / ru::grade_dec(&g[j])), &|i| g[i].to_string());
-    family(&mut st, "weight", 3, &|i, j, v| w[i].convert(&Weight::new(v), &w[j]).as_f64(),
-        &|i, j| Some(ru::weight_kg(&w[i]) / ru::weight_kg(&w[j])), &|i| w[i].to_string());
+    family(
+        &mut st,
+        "distance",
+        5,
+        &|i, j, v| d[i].convert(&Distance::new(v), &d[j]).as_f64(),
+        &|i, j| Some(ru::distance_m(&d[i]) / ru::distance_m(&d[j])),
+        &|i| d[i].to_string(),
+    );
+    family(
+        &mut st,
+        "time",
+        4,
+        &|i, j, v| t[i].convert(&Time::new(v), &t[j]).as_f64(),
+        &|i, j| Some(ru::time_s(&t[i]) / ru::time_s(&t[j])),
+        &|i| t[i].to_string(),
+    );
+    family(
+        &mut st,
+        "speed",
+        3,
+        &|i, j, v| s[i].convert(&Speed::new(v), &s[j]).as_f64(),
+        &|i, j| Some(ru::speed_mps(&s[i]) / ru::speed_mps(&s[j])),
+        &|i| s[i].to_string(),
+    );
+    family(
+        &mut st,
+        "grade",
+        3,
+        &|i, j, v| g[i].convert(&Grade::new(v), &g[j]).as_f64(),
+        &|i, j| Some(ru::grade_dec(&g[i]) / ru::grade_dec(&g[j])),
+        &|i| g[i].to_string(),
+    );
+    family(
+        &mut st,
+        "weight",
+        3,
+        &|i, j, v| w[i].convert(&Weight::new(v), &w[j]).as_f64(),
+        &|i, j| Some(ru::weight_kg(&w[i]) / ru::weight_kg(&w[j])),
+        &|i| w[i].to_string(),
+    );
     // energy: only linear and invertible, as the statement says
-    family(&mut st, "energy", 3, &|i, j, v| e[i].convert(&Energy::new(v), &e[j]).as_f64(),
-        &|_, _| None, &|i| e[i].to_string());
+    family(
+        &mut st,
+        "energy",
+        3,
+        &|i, j, v| e[i].convert(&Energy::new(v), &e[j]).as_f64(),
+        &|_, _| None,
+        &|i| e[i].to_string(),
+    );
 
     // constructors: every unit triple x magnitudes against the definition
     let mags = [(1.0, 1.0), (30.0, 1500.0), (0.25, 12.5)];
@@ -135,24 +206,61 @@ pub fn run(tier: Tier) -> i32 {
                     st.transitions += 1;
                     st.traces += 1;
                     let case = || json!({"ctor": "Time::create", "speed": sv, "speed_unit": su.to_string(), "distance": dv, "distance_unit": du.to_string(), "time_unit": tu.to_string()});
-                    let got = guarded(|| Time::create(&Speed::new(*sv), su, &Distance::new(*dv), du, tu));
-                    let want = (dv * ru::distance_m(du)) / (sv * ru::speed_mps(su)) / ru::time_s(tu);
+                    let got =
+                        guarded(|| Time::create(&Speed::new(*sv), su, &Distance::new(*dv), du, tu));
+                    let want =
+                        (dv * ru::distance_m(du)) / (sv * ru::speed_mps(su)) / ru::time_s(tu);
                     match got {
-                        Ok(Ok(tm)) if close(tm.as_f64(), want, 1e-3) => st.pass("time_is_distance_over_speed"),
-                        Ok(Ok(tm)) => st.violation("Time::create", "definition", 0, || format!("got {} want {}", tm.as_f64(), want), case),
-                        Ok(Err(e)) => st.violation("Time::create", "definition", 0, || format!("unexpected Err {} want {}", e, want), case),
+                        Ok(Ok(tm)) if close(tm.as_f64(), want, 1e-3) => {
+                            st.pass("time_is_distance_over_speed")
+                        }
+                        Ok(Ok(tm)) => st.violation(
+                            "Time::create",
+                            "definition",
+                            0,
+                            || format!("got {} want {}", tm.as_f64(), want),
+                            case,
+                        ),
+                        Ok(Err(e)) => st.violation(
+                            "Time::create",
+                            "definition",
+                            0,
+                            || format!("unexpected Err {} want {}", e, want),
+                            case,
+                        ),
                         Err(p) => st.violation("Time::create", "no_panic", 0, || p.clone(), case),
                     }
                 }
                 // non-positive speed or distance must be rejected
-                for (sv, dv) in [(0.0, 10.0), (-5.0, 10.0), (5.0, 0.0), (5.0, -10.0), (0.0, 0.0), (-1.0, -1.0)] {
+                for (sv, dv) in [
+                    (0.0, 10.0),
+                    (-5.0, 10.0),
+                    (5.0, 0.0),
+                    (5.0, -10.0),
+                    (0.0, 0.0),
+                    (-1.0, -1.0),
+                ] {
                     st.evaluations += 1;
                     st.transitions += 1;
                     st.traces += 1;
                     let case = || json!({"ctor": "Time::create", "speed": sv, "speed_unit": su.to_string(), "distance": dv, "distance_unit": du.to_string(), "time_unit": tu.to_string()});
-                    match guarded(|| Time::create(&Speed::new(sv), su, &Distance::new(dv), du, tu)) {
+                    match guarded(|| Time::create(&Speed::new(sv), su, &Distance::new(dv), du, tu))
+                    {
                         Ok(Err(_)) => st.pass("non_positive_rejected"),
-                        Ok(Ok(tm)) => st.violation("Time::create", "non_positive_rejected", 0, || format!("speed {} distance {} produced time {}", sv, dv, tm.as_f64()), case),
+                        Ok(Ok(tm)) => st.violation(
+                            "Time::create",
+                            "non_positive_rejected",
+                            0,
+                            || {
+                                format!(
+                                    "speed {} distance {} produced time {}",
+                                    sv,
+                                    dv,
+                                    tm.as_f64()
+                                )
+                            },
+                            case,
+                        ),
                         Err(p) => st.violation("Time::create", "no_panic", 0, || p.clone(), case),
                     }
                 }
@@ -170,12 +278,28 @@ pub fn run(tier: Tier) -> i32 {
                     st.transitions += 1;
                     st.traces += 1;
                     let case = || json!({"ctor": "Speed::create", "time": tv, "time_unit": tu.to_string(), "distance": dv, "distance_unit": du.to_string(), "speed_unit": su.to_string()});
-                    let got = guarded(|| Speed::create(&Time::new(*tv), tu, &Distance::new(*dv), du, su));
-                    let want = (dv * ru::distance_m(du)) / (tv * ru::time_s(tu)) / ru::speed_mps(su);
+                    let got =
+                        guarded(|| Speed::create(&Time::new(*tv), tu, &Distance::new(*dv), du, su));
+                    let want =
+                        (dv * ru::distance_m(du)) / (tv * ru::time_s(tu)) / ru::speed_mps(su);
                     match got {
-                        Ok(Ok(sp)) if close(sp.as_f64(), want, 1e-3) => st.pass("speed_is_distance_over_time"),
-                        Ok(Ok(sp)) => st.violation("Speed::create", "definition", 0, || format!("got {} want {}", sp.as_f64(), want), case),
-                        Ok(Err(e)) => st.violation("Speed::create", "definition", 0, || format!("unexpected Err {} want {}", e, want), case),
+                        Ok(Ok(sp)) if close(sp.as_f64(), want, 1e-3) => {
+                            st.pass("speed_is_distance_over_time")
+                        }
+                        Ok(Ok(sp)) => st.violation(
+                            "Speed::create",
+                            "definition",
+                            0,
+                            || format!("got {} want {}", sp.as_f64(), want),
+                            case,
+                        ),
+                        Ok(Err(e)) => st.violation(
+                            "Speed::create",
+                            "definition",
+                            0,
+                            || format!("unexpected Err {} want {}", e, want),
+                            case,
+                        ),
                         Err(p) => st.violation("Speed::create", "no_panic", 0, || p.clone(), case),
                     }
                 }
@@ -192,13 +316,30 @@ pub fn run(tier: Tier) -> i32 {
                 st.transitions += 1;
                 st.traces += 1;
                 let case = || json!({"ctor": "Energy::create", "rate": rv, "rate_unit": ru_.to_string(), "distance": dv, "distance_unit": du.to_string()});
-                let got = guarded(|| Energy::create(&EnergyRate::new(*rv), ru_, &Distance::new(*dv), du));
+                let got =
+                    guarded(|| Energy::create(&EnergyRate::new(*rv), ru_, &Distance::new(*dv), du));
                 let rate_du = ru::rate_distance_unit(ru_);
                 let want = rv * dv * ru::distance_m(du) / ru::distance_m(&rate_du);
                 match got {
-                    Ok(Ok((en, eu))) if close(en.as_f64(), want, 1e-3) && eu == ru::rate_energy_unit(ru_) => st.pass("energy_is_rate_times_distance"),
-                    Ok(Ok((en, eu))) => st.violation("Energy::create", "definition", 0, || format!("got {} {} want {}", en.as_f64(), eu, want), case),
-                    Ok(Err(e)) => st.violation("Energy::create", "definition", 0, || format!("unexpected Err {} want {}", e, want), case),
+                    Ok(Ok((en, eu)))
+                        if close(en.as_f64(), want, 1e-3) && eu == ru::rate_energy_unit(ru_) =>
+                    {
+                        st.pass("energy_is_rate_times_distance")
+                    }
+                    Ok(Ok((en, eu))) => st.violation(
+                        "Energy::create",
+                        "definition",
+                        0,
+                        || format!("got {} {} want {}", en.as_f64(), eu, want),
+                        case,
+                    ),
+                    Ok(Err(e)) => st.violation(
+                        "Energy::create",
+                        "definition",
+                        0,
+                        || format!("unexpected Err {} want {}", e, want),
+                        case,
+                    ),
                     Err(p) => st.violation("Energy::create", "no_panic", 0, || p.clone(), case),
                 }
             }
